@@ -46,7 +46,23 @@ class EventStorage(LocalStorage):
 
     def file_handle(self, key, filename, *, mode='r'):
         self._event(f'file_handle({filename},{mode})')
-        h = super().file_handle(key, filename, mode=mode)
+        if 'w' in mode and self.armed:
+            # a second fault point INSIDE the provided storage: the operating system's open() of the file fails
+            # (EMFILE, ENOSPC, EROFS ...) after whatever LocalStorage.file_handle did before opening
+            import pathlib
+            orig_open = pathlib.Path.open
+            st = self
+
+            def failing_open(p, *a, **k):
+                st._event(f'os-open({filename})')
+                return orig_open(p, *a, **k)
+            pathlib.Path.open = failing_open
+            try:
+                h = super().file_handle(key, filename, mode=mode)
+            finally:
+                pathlib.Path.open = orig_open
+        else:
+            h = super().file_handle(key, filename, mode=mode)
         return HandleProxy(h, self, filename) if ('w' in mode and self.armed) else h
 
 
@@ -72,7 +88,22 @@ class HandleProxy:
         return getattr(self.h, n)
 
 
-@labtech.task
+CURRENT = None     # the armed EventStorage of the save under test (so that non-storage steps of the save are events too)
+
+
+def _cache():
+    from labtech.cache import PickleCache
+    from labtech.serialization import Serializer
+
+    class _S(Serializer):
+        def serialize_task(self, task):
+            if CURRENT is not None:
+                CURRENT._event('serialize_task')
+            return super().serialize_task(task)
+    return PickleCache(serializer=_S())
+
+
+@labtech.task(cache=_cache())
 class Saved:
     n: int
     kind: str = 'small'
@@ -116,26 +147,42 @@ def verdict(d, task, had_old):
 def do_save(d, task, at, crash):
     st = EventStorage(d, at=at, crash=crash)
     lab = labtech.Lab(storage=st, runner_backend='serial', continue_on_failure=True)
+    global CURRENT
     st.armed = True
+    CURRENT = st
     try:
         lab.run_tasks([task], bust_cache=True, disable_progress=True, disable_top=True)
     finally:
         st.armed = False
+        CURRENT = None
     return st.events
 
 
-def explore(mode, limit=None):
+def site_id(mode, kind, overwrite, events, at):
+    """Stable name of an injection point: the event and its occurrence number among equal events of this save."""
+    if at is None:
+        return f'{mode}/{"overwrite" if overwrite else "first"}/{kind}/pickling-error'
+    ev = events[at - 1] if at <= len(events) else f'event{at}'
+    if ev.startswith('write('):
+        return f'{mode}/{"overwrite" if overwrite else "first"}/{kind}/{ev}'       # any of the write calls of that file
+    occ = sum(1 for e in events[:at] if e == ev)
+    return f'{mode}/{"overwrite" if overwrite else "first"}/{kind}/{ev}#{occ}'
+
+
+def explore(mode, limit=None, collect=False):
+    """collect=False: stop at the first failing site (replay).  collect=True: every failing site with its id (stand-in)."""
     logging.getLogger('labtech').setLevel(logging.CRITICAL)
     tried = 0
+    failing = []
     for kind in ('small', 'multi', 'unpicklable'):
         for overwrite in (False, True):
             task = Saved(1, kind)
             with tempfile.TemporaryDirectory() as d0:
                 try:
-                    n_events = len(do_save(d0, task, None, False))
+                    ref_events = list(do_save(d0, task, None, False))
                 except BaseException:
-                    n_events = 8
-            sites = list(range(1, n_events + 1)) if kind != 'unpicklable' else [None]
+                    ref_events = []
+            sites = list(range(1, len(ref_events) + 1)) if kind != 'unpicklable' else [None]
             for at in sites:
                 with tempfile.TemporaryDirectory() as d:
                     if overwrite:
@@ -143,13 +190,11 @@ def explore(mode, limit=None):
                             continue
                         do_save(d, task, None, False)
                     tried += 1
-                    ev_name = ''
                     if mode == 'fault':
                         try:
-                            evs = do_save(d, task, at, False)
-                            ev_name = evs[at - 1] if at and len(evs) >= at else 'pickling error'
-                        except BaseException as ex:   # noqa
-                            ev_name = str(ex)
+                            do_save(d, task, at, False)
+                        except BaseException:   # noqa
+                            pass
                     else:
                         if at is None:
                             continue
@@ -160,11 +205,16 @@ def explore(mode, limit=None):
                             finally:
                                 os._exit(0)
                         os.waitpid(pid, 0)
-                        ev_name = f'kill at storage event {at}'
                     why = verdict(d, task, overwrite)
                     if why:
-                        return dict(reproduced=True, level='api', mode=mode, result_shape=kind, overwrite=overwrite, site=ev_name,
-                                    summary=f'{mode} at [{ev_name}] ({kind} result, {"overwrite" if overwrite else "first save"}): {why}'), tried
+                        sid = site_id(mode, kind, overwrite, ref_events, at)
+                        item = dict(reproduced=True, level='api', mode=mode, result_shape=kind, overwrite=overwrite, site=sid,
+                                    summary=f'{mode} at [{sid}]: {why}')
+                        if not collect:
+                            return item, tried
+                        failing.append(item)
+    if collect:
+        return failing, tried
     return dict(reproduced=False, level='api', mode=mode, tried=tried), tried
 
 
@@ -172,14 +222,33 @@ def main():
     ap = argparse.ArgumentParser()
     ap.add_argument('--obligation', default='')
     ap.add_argument('--repo', default='/repo')
+    ap.add_argument('--prop', default='')
+    ap.add_argument('--tier', default='quick')
     a = ap.parse_args()
+    if a.obligation or not a.prop:
+        try:
+            mode = 'crash' if '/crash[' in a.obligation else 'fault'
+            res, n = explore(mode)
+        except Exception:
+            res = dict(reproduced=False, error=traceback.format_exc()[-1500:])
+        print(json.dumps(res, default=str))
+        return 1 if res.get('reproduced') else 0
+    # stand-in: every injection point; each failing one is a finding identified by its site id
+    mode = 'crash' if a.prop == 'C13' else 'fault'
     try:
-        mode = 'crash' if '/crash[' in a.obligation else 'fault'
-        res, n = explore(mode)
+        failing, n = explore(mode, collect=True)
+        err = None
     except Exception:
-        res = dict(reproduced=False, error=traceback.format_exc()[-1500:])
-    print(json.dumps(res, default=str))
-    return 1 if res.get('reproduced') else 0
+        failing, n, err = [], 0, traceback.format_exc()[-1500:]
+    findings, seen = [], set()
+    for f in failing:
+        if f['site'] not in seen:
+            seen.add(f['site'])
+            findings.append(dict(id=f'c12:{f["site"]}', summary=f['summary']))
+    print(json.dumps([dict(name=f'c12:{mode}-injection-at-every-storage-event', bounded=True,
+                           bound=f'{n} injected saves: every storage event (file_handle, OS open, each write call, close) of the save x result shapes (small, multi-frame, unpicklable) x first save / overwrite',
+                           violation=False, witness=[], findings=findings, error=err)], default=str))
+    return 0
 
 
 if __name__ == '__main__':
